@@ -32,34 +32,6 @@ def parseOp (v : Json) : Except String (Op Int × Int) := do
   | "add" => pure (.addFields (← getIntListList v "new"), 1)
   | _ => throw s!"unknown op {k}"
 
-/-- the same program on (width, list of rows) — Spec level -/
-def stepRows (st : Nat × List (List Int)) : Op Int → Option (Nat × List (List Int))
-  | .take ix => (takeRows ix st.2).map (fun r => (st.1, r))
-  | .mask m =>
-    if m.length = st.2.length then
-      some (st.1, (st.2.zip m).filterMap (fun p => if p.2 then some p.1 else none))
-    else none
-  | .concat o => if wfB o && o.length == st.1 then some (st.1, st.2 ++ toRows o) else none
-  | .concatL o => if wfB o && o.length == st.1 then some (st.1, toRows o ++ st.2) else none
-  | .sortBy j key =>
-    if j < st.1 then (takeRows (argsort ((st.2.filterMap (fun r => r[j]?)).map key)) st.2).map (fun r => (st.1, r)) else none
-  | .predMask j p =>
-    if j < st.1 then some (st.1, st.2.filter (fun r => match r[j]? with | some x => p x | none => false)) else none
-  | .replace j c =>
-    if st.1 == 1 && j == 0 then some (1, c.map (fun x => [x]))      -- the only column: any length is a table
-    else if j < st.1 && c.length == st.2.length then some (st.1, replaceRows j c st.2) else none
-  | .addFields new =>
-    if new.all (fun c => c.length == st.2.length) && !new.isEmpty then
-      some (st.1 + new.length, if st.2.isEmpty then [] else addRows st.2 (toRows new))
-    else none
-
-def runRows : List (Op Int) → Nat × List (List Int) → Option (Nat × List (List Int))
-  | [], st => some st
-  | op :: ops, st =>
-    match stepRows st op with
-    | some st' => runRows ops st'
-    | none => none
-
 /-- schema JSON: a list of `[name, "leaf"]` / `[name, [sub-schema…]]`; leaf `i` (in order) gets the one-cell column `[i]` -/
 partial def parseFields (v : Json) (next : Nat) : Except String (List (C19.Name × Tab Int) × Nat) := do
   let arr ← v.getArr?
